@@ -68,13 +68,18 @@ StepLevel(e) ==
 
 \* recovery series: rf[1] = 0; non-decreasing while the schedule has never risen (the harness cuts the series
 \* at the first rise: field upto); density mode below the ceiling; ideal plateau; flux/density gap first order
-MonotoneUpTo(s, n) == \A i \in 1..(n - 1) : QLeTol(s[i], s[i + 1], EpsRF)
+\* slack[i]: the rounding floor of step i -> i+1 as the harness measures it, 1e-9 + 1e-12 * (t[i+1] - t[i]) * (largest rate of the run):
+\* cumulative flux is rate x time, so on grids with steps of 1e8 a rate at rounding level moves recovery by 1e-8 and more; for
+\* steps up to 1000 the floor stays at 1e-9.  It is capped here at 1e-4.
+SlackCap == <<100000, 0>>
+SlackOf(e, i) == IF Has(e, "slack") /\ QLe(e.slack[i], SlackCap) THEN e.slack[i] ELSE EpsRF
+MonotoneUpTo(e, n) == \A i \in 1..(n - 1) : QLeTol(e.rf[i], e.rf[i + 1], SlackOf(e, i))
 GapC     == 3000        \* gap * nx <= 3        (gapE = 1000 * gap * nx / ceiling, table inconsistency subtracted)
 PlateauC == 2500        \* |rf_last/(1-pf/pi) - 1| * nx <= 2.5   (plateauE = 1000 * that; -1: not applicable)
 StepRF(e) ==
     LET n   == Len(e.rf)
         bad == (IF ~QWithin(e.rf[1], QS, Units(0)) THEN {"C03.StartsAtZero"} ELSE {})
-               \cup (IF ~MonotoneUpTo(e.rf, e.upto) THEN {"C03.MonotoneRF"} ELSE {})
+               \cup (IF ~MonotoneUpTo(e, e.upto) THEN {"C03.MonotoneRF"} ELSE {})
                \cup (IF e.mode = "density" /\ e.hasceil /\ (\E i \in 1..n : ~QLeTol(e.rf[i], e.ceil, EpsRF))
                      THEN {"C03.Ceiling"} ELSE {})
                \cup (IF e.plateauE >= 0 /\ e.plateauE > PlateauC THEN {"C03.IdealPlateau"} ELSE {})
